@@ -1467,6 +1467,8 @@ class Gen(object):
                 cfg["maxs"] = len([s for s in self.sess if s.alive]) + len(self.pseudo) + r.randint(0, 1)
             self._F(cfg)
             M(x, b"JOIN #brandnew%d" % r.randint(1, 3))
+            # one JOIN naming several channels that do not exist yet: the limit is crossed INSIDE the message
+            M(m, b"JOIN " + b",".join(b"#multi%d%s" % (r.randint(1, 9), bytes([97 + n_])) for n_ in range(r.randint(2, 5))))
             if self.link and self.link.alive and self.pseudo:
                 M(self.link, b":%s SVSJOIN %s #other%d" % (self.pseudo[0], x.nick or b"x", r.randint(1, 3)))
                 M(self.link, b":%s JOIN #third" % self.pseudo[0])
